@@ -518,7 +518,7 @@ UNITS = {
     "C16": [unit_std("C16", "accumulate_vector"), unit_std("C16", "apply_vector"), unit_std("C16", "have_stats"), unit_std_tensor("C16"), unit_std_apply_tensor("C16"), _lazy("contracts.standardize", "unit_dispatch", "C16")],
     "C17": [unit_std("C17", "accumulate_vector"), _lazy("contracts.standardize", "unit_sanitize_accepts_saved", "C17"), unit_readers("C17"),
             _lazy("contracts.standardize_save", "unit_save", "C17"), _lazy("contracts.standardize_init", "unit_init", "C17")],
-    "C08": [unit_alias_arg("C08"), _lazy("contracts.alias", "unit_from_alias", "C08"), _lazy("contracts.alias", "unit_registry", "C08")],
+    "C08": [unit_alias_arg("C08"), _lazy("contracts.alias", "unit_from_alias", "C08"), _lazy("contracts.alias", "unit_registry", "C08"), _lazy("contracts.alias", "unit_nested", "C08")],
     "C18": [unit_pre("C18", "preemph"), unit_pre("C18", "dither"), _lazy("contracts.purity", "unit_purity", "C18"), _lazy("contracts.accessors", "unit_ctors", "C18")],
     "C12": [unit_copy_samples("C12"), _lazy("contracts.sphere", "unit_g711", "C12"), unit_header_validation("C12"),
             _lazy("contracts.sphere_header", "unit_parse", "C12"), unit_read_signal("C12", "dispatch"),
